@@ -15,21 +15,21 @@ type Term struct {
 	S    string
 	Sort string
 	T    types.Type
-	Loc  *Loc // set when the term is an address the engine tracks itself
+	Loc  *Loc   // set when the term is an address the engine tracks itself
 	Prov string // provenance of a channel value: "Struct.field" it was loaded from
 }
 
 // Loc describes where an address-valued SSA value points to.
 type Loc struct {
 	Kind   int
-	Base   Term        // object ref (locField), slice value (locElem), cell ref (locCell)
-	Struct types.Type  // struct type owning the field (locField)
-	Field  int         // field index (locField)
-	Idx    Term        // element index (locElem)
-	ElemT  types.Type  // type of the pointee
-	Sub    []int       // path of struct-value sub-fields below an element / cell value
+	Base   Term         // object ref (locField), slice value (locElem), cell ref (locCell)
+	Struct types.Type   // struct type owning the field (locField)
+	Field  int          // field index (locField)
+	Idx    Term         // element index (locElem)
+	ElemT  types.Type   // type of the pointee
+	Sub    []int        // path of struct-value sub-fields below an element / cell value
 	SubT   []types.Type // struct types along Sub
-	Global string      // state variable name (locGlobal)
+	Global string       // state variable name (locGlobal)
 }
 
 const (
